@@ -1,5 +1,5 @@
 // Long single moves through the real ManagedFilter.h (tens of thousands of sub-steps): the recording Impl appends every
-// step length to a global vector (no per-step copies).  stdin: "<maxN> <t0 units> <out units>" per line; stdout: "MOVE" then one
+// step length to a global vector (no per-step copies).  stdin: "<maxN> <t0 seconds, hexfloat> <out seconds, hexfloat>" per line; stdout: "MOVE" then one
 // hexfloat step length per line, then "END".   Build with -DHAS_CONTROL=0|1 -DHAS_CALIBRATION=0|1 -DUNIT_SCALE=<expr>
 #include <formak/runtime/ManagedFilter.h>
 #include <cstdio>
@@ -47,28 +47,30 @@ template <int MAXN> struct Impl {
   Est process_model(double dt, const Est& s) const { g_steps.push_back(dt); return s; }
 #endif
 };
-template <int MAXN> static void move(long t0, long out) {
+template <int MAXN> static void move(double t0, double out) {
   using MF = formak::runtime::ManagedFilter<Impl<MAXN>>;
 #if HAS_CALIBRATION
-  MF mf(t0 * UNIT_SCALE, Est{}, CalT{1});
+  MF mf(t0, Est{}, CalT{1});
 #else
-  MF mf(t0 * UNIT_SCALE, Est{});
+  MF mf(t0, Est{});
 #endif
   g_steps.clear();
 #if HAS_CONTROL
-  mf.tick(out * UNIT_SCALE, CtlT{1});
+  mf.tick(out, CtlT{1});
 #else
-  mf.tick(out * UNIT_SCALE);
+  mf.tick(out);
 #endif
   std::printf("MOVE\n");
   for (double d : g_steps) std::printf("%a\n", d);
   std::printf("END\n");
 }
 int main() {
-  int maxn; long t0, out;
-  while (std::scanf("%d %ld %ld", &maxn, &t0, &out) == 3) {
+  int maxn; double t0, out;   // times in SECONDS (hexfloat), max_dt_sec = maxn * UNIT_SCALE
+  while (std::scanf("%d %la %la", &maxn, &t0, &out) == 3) {
     switch (maxn) {
       case 1: move<1>(t0, out); break;
+      case 3: move<3>(t0, out); break;
+      case 4: move<4>(t0, out); break;
       case 5: move<5>(t0, out); break;
       case 10: move<10>(t0, out); break;
       case 30: move<30>(t0, out); break;
